@@ -128,6 +128,7 @@ def run(ctx):
     cases += part(ctx, "hr", "TestVerifC18Decrypt$", "c18dec.impl.txt", {"VERIF_N": 12 if ctx.tier == "quick" else 40}, "encrypted destination")
     bad_payload_events = fail_closed_in_controller(ctx)
     http_requests = served_over_http(ctx)
+    L.buyer_world(ctx, "C18")
     kinds = {}
     for h, lines in cases:
         for l in lines:
@@ -144,6 +145,9 @@ def run(ctx):
 
 
 def replay(ctx, path):
+    r = L.buyer_world_replay(ctx, "C18", path)
+    if r is not None:
+        return r
     import json, importlib.util
     rp = json.load(open(path))
     if any(o.startswith("> world") or o.startswith("world") for o in rp.get("ops", [])):   # a seller-world history
